@@ -168,11 +168,10 @@ def run(ctx):
         if p == 0 and n == 0:
             continue        # C prints nothing, python's printf-style formatting prints "0": not compared (see assumptions)
         # sanity of the specification: python's % operator follows C for d
-        if True:
-            py = ("%" + conv_spec(fl, w, p) + "d") % n
-            if py != chars(c["out"]):
-                ctx.machinery(f"Printf.tla disagrees with the reference formatter for %{conv_spec(fl, w, p)}d of {n}: "
-                              f"{chars(c['out'])!r} vs {py!r}")
+        py = ("%" + conv_spec(fl, w, p) + "d") % n
+        if py != chars(c["out"]):
+            ctx.machinery(f"Printf.tla disagrees with the reference formatter for %{conv_spec(fl, w, p)}d of {n}: "
+                          f"{chars(c['out'])!r} vs {py!r}")
         for order in (fl, fl[::-1]) if len(fl) > 1 else (fl,):
             style = (k + (1 if order is not fl else 0)) % len(STYLES)
             spec = conv_spec(order, w, p)
